@@ -29,7 +29,8 @@ Query(prm) ==
              ders |-> IF PDim(sh) = 1 THEN [k \in 1..(MaxOrd + 1) |-> Deriv(sh, prm, <<k - 1>>)]
                       ELSE IF PDim(sh) = 2 THEN [k \in 1..(MaxOrd + 1) |-> [l \in 1..(MaxOrd + 2 - k) |-> Deriv(sh, prm, <<k - 1, l - 1>>)]]
                       ELSE <<>>,
-             images |-> [x \in 1..3 |-> LET ab == (CHOOSE q \in [1..3 -> AffineMaps] : q[1] = <<RI(3), RI(0)>> /\ q[2] = <<RI(2), RI(-1)>> /\ q[3] = <<R(1,2), RI(1)>>)[x] IN
+             \* the last two are pure shifts: ranges of length one that do not start at 0
+             images |-> [x \in 1..5 |-> LET ab == << <<RI(3), RI(0)>>, <<RI(2), RI(-1)>>, <<R(1,2), RI(1)>>, <<One, RI(2)>>, <<One, R(-1, 2)>> >>[x] IN
                           [a |-> ab[1], b |-> ab[2], shape |-> AffineShape(sh, ab), prm |-> AffinePrm(prm, ab)]]]
   /\ UNCHANGED sh
 Maps3 == <<<<RI(3), RI(0)>>, <<RI(2), RI(-1)>>, <<R(1,2), RI(1)>>>>
@@ -50,7 +51,7 @@ Next == \/ \E prm \in ShapeParams(sh, 1) : Query(prm)
         \/ \E d \in 1..2 : \E r \in 1..2 : RoundTrip(d, Half, r)
 Spec == Init /\ [][Next]_vars
 \* affine invariance of the definition: N_{aU+b}(a u + b) = N_U(u); derivatives scale by a^(-k)
-T_Affine == out.op = "query" => \A x \in 1..3 :
+T_Affine == out.op = "query" => \A x \in 1..5 :
    LET im == out.images[x] IN
    /\ Point(im.shape, im.prm) = out.pt
    /\ PDim(sh) = 1 /\ ~sh.rat => \A k \in 1..(MaxOrd + 1) : Deriv(im.shape, im.prm, <<k - 1>>) = VScale(RInv(RPow(im.a, k - 1)), out.ders[k])
